@@ -8,11 +8,12 @@ Line protocol of engine `sampling` (numbers decimal unless noted; `h…` = hexad
   `rc <rate32h> <word64h> <metrics>`     → counts, metrics = `/`-separated lists of `s` | `r<occ>` | `x` (`,`-separated)
                                            reply: same shape with decimal counts, `.` for an empty list
   `fx <rate32h> <word32h>`               → `emit <rate32h>` | `drop`   (`FixedFractionSample::format`)
-  `cg <target> <op> <op> …`              → one token per op            (`CongressSample`)
-       op `o<gid>:<word32h>`  one entry of group gid with that u32 draw word → `e<rate32h>` | `d<rate32h>`
-       op `n<gid>:<count>`    count entries of group gid (decisions not reported) → `b`
-       op `E<gid>,<gid>…`     end of interval, hash-map iteration order (`E` alone = no groups)
-                              → `R<gid>:<rate32h>:<avg32h>:<noObs>;…` sorted by gid (`R` alone = no groups)
+  `cg <target>/<v> <op> <op> …`          → one token per op            (`CongressSample`); v = `1` validate_groups on, `0` off
+       pairs = `<key>.<value>+<key>.<value>…` in the order the entry yields them, `_` = the empty group
+       op `o<pairs>:<word32h>`  one entry with that u32 draw word → `e<rate32h>` | `d<rate32h>` | `P` (duplicate-key panic)
+       op `n<pairs>:<count>`    count entries (decisions not reported) → `b` | `P`
+       op `E<key>,<key>…`       end of interval, hash-map iteration order as canonical keys (`E` alone = no groups)
+                                → `R<key>:<rate32h>:<avg32h>:<noObs>;…` sorted by key (`R` alone = no groups)
 A value outside the modelled float range is printed as `range`.
 -/
 namespace Driver.Sampling
@@ -46,43 +47,58 @@ def parseObs (s : String) : Option Obs :=
 def parseMetrics (s : String) : Option (List (List Obs)) :=
   (s.splitOn "/").mapM fun m => if m == "." then some [] else (m.splitOn ",").mapM parseObs
 
+def parsePairs (s : String) : Option Key :=
+  if s == "_" then some []
+  else (s.splitOn "+").mapM fun p =>
+    match p.splitOn "." with
+    | [k, v] => do some ((← k.toNat?), (← v.toNat?))
+    | _ => none
+
+def keyStr (k : Key) : String :=
+  if k.isEmpty then "_" else "+".intercalate (k.map fun p => s!"{p.1}.{p.2}")
+
 def consts : Consts := ⟨Generated.Sampling.window, Generated.Sampling.ttl⟩
 
-def cgOp (st : State F32) (tok : String) : Option (State F32 × String) :=
+def cgOp (validate : Bool) (st : State F32) (tok : String) : Option (State F32 × String) :=
   let body := (tok.drop 1).toString
   if tok.startsWith "o" then
     match body.splitOn ":" with
     | [g, w] => do
-      let gid ← g.toNat?
+      let pairs ← parsePairs g
       let word ← parseHex w
-      let (st', rate) := observe f32Arith st gid
-      match rate with
-      | .fin r =>
-        match congressDecision (drawF32 word) r with
-        | some r' => some (st', "e" ++ f32Str r')
-        | none => some (st', "d" ++ f32Str r)
-      | .bad => some (st', "range")
+      match entryKey canon validate pairs with
+      | none => some (st, "P")
+      | some key =>
+        let (st', rate) := observe f32Arith st key
+        match rate with
+        | .fin r =>
+          match congressDecision (drawF32 word) r with
+          | some r' => some (st', "e" ++ f32Str r')
+          | none => some (st', "d" ++ f32Str r)
+        | .bad => some (st', "range")
     | _ => none
   else if tok.startsWith "n" then
     match body.splitOn ":" with
     | [g, c] => do
-      let gid ← g.toNat?
+      let pairs ← parsePairs g
       let n ← c.toNat?
+      match entryKey canon validate pairs with
+      | none => some (st, "P")
       -- `n` single observations in closed form (theorem `c12_obsN_bulk`)
-      some (observeBulk f32Arith st gid n, "b")
+      | some key => some (observeBulk f32Arith st key n, "b")
     | _ => none
   else if tok.startsWith "E" then do
-    let order ← if body.isEmpty then some [] else (body.splitOn ",").mapM (·.toNat?)
+    let order ← if body.isEmpty then some [] else (body.splitOn ",").mapM parsePairs
     let st' := updateRates f32Arith consts order st
-    let gs := st'.groups.toArray.qsort (fun a b => a.gid < b.gid) |>.toList
-    some (st', "R" ++ ";".intercalate (gs.map fun g => s!"{g.gid}:{F32.str g.rate}:{F32.str g.avg}:{g.noObs}"))
+    let gs := st'.groups.toArray.qsort (fun a b => keyLt a.gid b.gid) |>.toList
+    some (st', "R" ++ ";".intercalate (gs.map fun g => s!"{keyStr g.gid}:{F32.str g.rate}:{F32.str g.avg}:{g.noObs}"))
   else none
 
-def cgRun (st : State F32) : List String → Option (List String)
+def cgRun (validate : Bool) (st : State F32) : List String → Option (List String)
   | [] => some []
   | t :: ts => do
-    let (st', r) ← cgOp st t
-    let rest ← cgRun st' ts
+    let (st', r) ← cgOp validate st t
+    let rest ← cgRun validate st' ts
     some (r :: rest)
 
 def handle (line : String) : String :=
@@ -109,12 +125,15 @@ def handle (line : String) : String :=
       | none => "drop"
     | _, _ => "bad-op"
   | "cg" :: t :: ops =>
-    match t.toNat? with
-    | some target =>
-      match cgRun (State.init target) ops with
-      | some rs => " ".intercalate rs
-      | none => "bad-op"
-    | none => "bad-op"
+    match t.splitOn "/" with
+    | [ts, vs] =>
+      match ts.toNat?, (if vs == "1" then some true else if vs == "0" then some false else none) with
+      | some target, some validate =>
+        match cgRun validate (State.init target) ops with
+        | some rs => " ".intercalate rs
+        | none => "bad-op"
+      | _, _ => "bad-op"
+    | _ => "bad-op"
   | _ => "bad-op"
 
 end Driver.Sampling
